@@ -10,6 +10,7 @@ import (
 	"os"
 	"path/filepath"
 	"reflect"
+	"runtime"
 	"strings"
 	"testing"
 	"time"
@@ -144,11 +145,15 @@ func c19Try(u *vfUnit, label string, reply []byte, closeAfter bool, wantOK bool,
 		}
 	} else {
 		// failure must close the writer: the peer sees EOF
-		writerOpen := false
-		select {
-		case <-peerSawEOF:
-		default:
-			writerOpen = true
+		writerOpen := true
+		for spin := 0; spin < 5000 && writerOpen; spin++ {
+			// (the close travels through the peer's goroutine: give it its turn before looking)
+			select {
+			case <-peerSawEOF:
+				writerOpen = false
+			default:
+				runtime.Gosched()
+			}
 		}
 		if writerOpen && !u.Budget("writer-open", 4) {
 			// already reported several times in this unit; each confirmation costs a stuck-state window
